@@ -89,8 +89,33 @@ def run(ctx):
     from checks import c02_export as ce
     eres = ce.run_export(ctx, 1500 if ctx.quick else 40000, seed=s + 81)
     ofail += eres["impl_orient"][:2]
+    # sequence stream (harness/circseq.cpp, tag SP; checks/c01_sequences.py): ONE Circuit legalized / placeDetailed, edited through the public
+    # setters (setRows AND setupRows among them) and legalized again; orient_okb on the result of EVERY such call against the rows the circuit
+    # holds right before the call, and the same call on a circuit built from scratch with that public state
+    from checks import c01_sequences as sq
+    seqs = sq.run_stage_sequences(s + 93, 1500 if ctx.quick else 80000, common.corpus("C04", ("SP ",)))
+    seq_fail = []
+    for r, pl, why in seqs["orient_fail"]:
+        cells, _ = lc.cells_of(r.state)
+        if f19_applies(r.state, cells, pl) and ctx.known_finding("F19"):
+            known_f19 += 1
+        else:
+            seq_fail.append((r, why))
+    for r, why in seq_fail[:3]:
+        ctx.violation("/repo violates C04 inside a sequence of public edits and placement calls on one Circuit: " + why, dict(sq.detail(r), why=why))
+    for case, text in seqs["anomalies"][:3]:
+        ctx.violation("a sequence of public edits and legalize/placeDetailed calls did not run through: " + text[:200],
+                      {"case": case, "format": "see harness/circseq.cpp header (SP)", "implementation_output": text[:400], "why": text[:200]})
+    if seqs["differ"] and not seq_fail and not seqs["anomalies"] and not ofail:
+        r, _ = seqs["differ"][0]
+        ctx.violation("a Circuit with a history of public edits and a freshly built circuit holding the same public state give different results for the same "
+                      "placement call (%d of %d calls); both results satisfy C04, no circuit violating C04 found"
+                      % (len(seqs["differ"]), seqs["stats"]["legalize_calls"] + seqs["stats"]["placeDetailed_calls"]),
+                      dict(sq.detail(r), broken="correspondence: the model (coq/Legalizer.v / Orient.v, theorems of Properties_C04.v) is a function of the circuit's "
+                                                "public state; the implementation's result depends on the history of the object"), found_input=False)
     for l, i, why in ofail[:3]:
         ctx.violation("/repo violates C04: " + why, {"case": l, "implementation_output": i, "why": why})
+    ofail = ofail + seq_fail + seqs["anomalies"]
     if not ofail:
         if mism:
             ctx.violation("correspondence Legalizer.v <-> C++ broken (%d of %d cases differ); no circuit violating C04 found" % (len(mism), len(run.lines)),
@@ -104,10 +129,20 @@ def run(ctx):
             ctx.violation("proof obligations of Properties_C04.v do not check", {"broken": "Properties_C04.v", "detail": proof}, found_input=False)
     cov = dict(proof)
     cov.update({"export_tie": ce.summary(eres), "trusted_base": common.TRUSTED_BASE,
-                "evaluations": len(run.lines) + len(tl) + dres["runs"], "distinct_nontrivial": len(nontriv) + dres["nontrivial"],
+                "evaluations": len(run.lines) + len(tl) + dres["runs"] + seqs["in_domain_calls"], "distinct_nontrivial": len(nontriv) + dres["nontrivial"],
+                "sequence_stream": dict(sq.summary(seqs), returned_in_domain_calls_with_a_polarised_movable_cell=seqs["polarised_returned"],
+                                        results_violating_orient_okb=len(seq_fail)),
                 "rule": "tables: all 5 polarities x 10 enum values, exhaustive; legalization: random circuits of the C01 generator (every polarity on 1-3 row cells, "
                         "alternating/uniform/irregular N/S/FN/FS rows); detailed placement: orient_okb at every Detailed callback and at return. "
-                        "non-trivial = the circuit has a polarised movable cell and the call returned",
+                        "non-trivial = the circuit has a polarised movable cell and the call returned. "
+                        "sequence_stream (tag SP, harness/circseq.cpp, generator of C01's sequence stream with another seed): one Circuit of the same domain and 3-9 steps: "
+                        "legalize(params) (first step in 70 %, always the last step), placeDetailed(params), setSolution / setCellX / setCellY, setCellIsFixed / "
+                        "setCellIsObstruction, setRows (edit a row's x range / orientation, drop / add a row), setupRows (about 9 % of the steps: the bounding box of "
+                        "the rows -- keeps the row set when the rows were full-width and stacked --, the area of an earlier setupRows again with the other initial / "
+                        "alternating orientation, areas shrunk / grown / shifted by up to 2 sites and one row, half / double row height), setCellWidth/Height/"
+                        "Orientation, addNet, copy assignment, computeRows/hpwl/report queries between the steps; EVERY legalize / placeDetailed call that returns on a "
+                        "state inside std_design (python reading) is judged with orient_okb against the rows the public getter returns right before the call (F19 matched "
+                        "per circuit as in the one-shot stream) and repeated on a circuit built from scratch with that state (same outcome, same placement)",
                 "known_F19_matches": known_f19, "second_legalize_runs_judged": second_runs,
                 "legalize_no_outcome_cases": {"count": len(crashes), "first": [(c[0], c[2]) for c in crashes[:3]],
                                               "note": "abort/crash of Circuit::legalize: no orientation to judge; reported by C01/C07 (same generator), listed here so that it cannot hide"},
@@ -117,11 +152,33 @@ def run(ctx):
                 "model_vs_impl_differences": len(mism), "impl_outputs_violating_statement": len(ofail)})
     return ctx.finish(LEVEL, cov, ["orientation after legalization is PROVED for the raw legalizer model on the sub-domain std_design + known row orientations + row_orient_by_y (or row-high designs) and refuted outside it (F19); for detailed placement it is proved for every history of row-model operations under orient_ok of the input, dshifts_ok and closed operations / dhist_allowed, not for placeDetailed as a whole; everywhere else it is validated with the proved checker",
                                    "the specification `prescribed` is the code's table read on the bottom row only (NW / SE copy the code; the documentation's even-height / alternating-row clauses are not specified)",
-                                   "'exhaustive' refers to the 50 table entries only; F19 is matched per circuit (a circuit containing one cell of the F19 shape); only the first run of 'twice' cases is judged",
+                                   "'exhaustive' refers to the 50 table entries only; F19 is matched per circuit (a circuit containing one cell of the F19 shape); both runs of 'twice' cases are judged",
+                                   "sequence stream: states outside the python reading of std_design (overlapping rows after row edits, cells that are no multiple of a changed row height ...) are compared with the fresh circuit but not judged with orient_okb",
                                    "rows of one circuit are pairwise disjoint (domain of C01)"])
 
 
 def replay(ctx, path):
     r = json.load(open(path))["replay"]
+    case = r.get("case") or ""
+    if case.startswith("SP "):
+        from checks import c01_sequences as sq
+        from checks import circuit_sequences as cs
+        res = sq.run_stage_sequences(0, 0, [case])
+        print("case :", case)
+        for t in cs.steps_text(case):
+            print("  step", t)
+        n = len(res["anomalies"])
+        for c, text in res["anomalies"]:
+            print("NOT RUN THROUGH:", text[:300])
+        for rec, pl, why in res["orient_fail"]:
+            cells, _ = lc.cells_of(rec.state)
+            f19 = f19_applies(rec.state, cells, pl)
+            n += not f19
+            print("after step %d: state LG %s\n  object with history: %s\n  fresh circuit      : %s\n  %s%s"
+                  % (rec.step, " ".join(rec.state), rec.mine, rec.fresh, why, " [shape of known finding F19]" if f19 else ""))
+        for rec, _ in res["differ"]:
+            n += 1
+            print("after step %d: state LG %s\n  object with history: %s\n  fresh circuit      : %s\n  DIFFERENT" % (rec.step, " ".join(rec.state), rec.mine, rec.fresh))
+        return 1 if n else 0
     print(json.dumps(r, indent=1)[:2000])
     return 1
